@@ -34,8 +34,9 @@ Theorem C14_heap_pool_refines_fresh :
 Proof. exact heap_pool_refines_fresh_from_new. Qed.
 Print Assumptions C14_heap_pool_refines_fresh.
 
+(* after the repair of regpool.go (loops run to the pool's own length): no index panic for any pool size *)
 Theorem C14_pool_no_panic :
-  forall os p, (regPoolSize <= length (slots p))%nat ->
+  forall os p,
   Forall (fun r => r <> RGet GPanic /\ r <> RRel RegPool.RPanic) (RegPool.run p os).
 Proof. exact pool_no_panic. Qed.
 Print Assumptions C14_pool_no_panic.
